@@ -45,6 +45,12 @@ pub fn write(a: &SupArgs, prop: &'static dyn Prop, m: &Merged, total: u64, wall:
     if let Some(x) = prop.extra_evidence() {
         cov.put("extra", x);
     }
+    // summary written by the real-rayon cross-check that ./check runs first in the thorough tier
+    if let Ok(s) = std::fs::read_to_string(format!("{}/target/native-{}.json", a.verif_dir, prop.id())) {
+        if let Ok(x) = J::parse(&s) {
+            cov.put("real_rayon_cross_check", x);
+        }
+    }
     cov.put("violating_cases", J::U(m.viol_cases));
     cov.put("stopped_early_after_many_violations", J::Bool(m.stopped_early));
     cov.put("unknown_violation_groups", J::U(unknown_groups as u64));
